@@ -113,6 +113,20 @@ impl Hasher for IdHasher {
 }
 type FpSet = HashSet<u128, BuildHasherDefault<IdHasher>>;
 
+/// resident set size of this process in GB (0 if unknown)
+pub fn rss_gb() -> f64 {
+    std::fs::read_to_string("/proc/self/statm")
+        .ok()
+        .and_then(|s| s.split_whitespace().nth(1).and_then(|x| x.parse::<f64>().ok()))
+        .map(|pages| pages * 4096.0 / 1e9)
+        .unwrap_or(0.0)
+}
+
+/// engines stop (verdict: not exhaustive, cap reported) above this resident size; MC_MAX_RSS_GB overrides
+pub fn max_rss_gb() -> f64 {
+    std::env::var("MC_MAX_RSS_GB").ok().and_then(|s| s.parse().ok()).unwrap_or(14.0)
+}
+
 /// 128-bit fingerprint of any `Hash` value (two independent SipHash passes).
 pub fn fp128<T: Hash + ?Sized>(t: &T) -> u128 {
     #[allow(deprecated)]
@@ -146,7 +160,7 @@ struct Succ<S> {
 struct NodeOut<S> {
     succs: Vec<Succ<S>>,
     transitions: u64,
-    labels: Vec<(String, bool)>,
+    labels: Vec<(String, u64, u64)>,
     viols: Vec<(u32, Violation)>,
 }
 
@@ -189,13 +203,22 @@ pub fn bfs<M: Model>(model: &M, bounds: &Bounds, known: &dyn KnownMatcher, seed:
                     let mut out = NodeOut {
                         succs: Vec::new(),
                         transitions: 0,
-                        labels: Vec::with_capacity(acts.len()),
+                        labels: Vec::new(),
                         viols: Vec::new(),
                     };
                     for (i, a) in acts.iter().enumerate() {
                         let step = model.step(s, a);
                         out.transitions += 1;
-                        out.labels.push((step.label, step.ok));
+                        match out.labels.iter_mut().find(|l| l.0 == step.label) {
+                            Some(l) => {
+                                if step.ok {
+                                    l.1 += 1
+                                } else {
+                                    l.2 += 1
+                                }
+                            }
+                            None => out.labels.push((step.label, step.ok as u64, !step.ok as u64)),
+                        }
                         for v in step.violations {
                             out.viols.push((i as u32, v));
                         }
@@ -213,13 +236,10 @@ pub fn bfs<M: Model>(model: &M, bounds: &Bounds, known: &dyn KnownMatcher, seed:
                 .collect();
             for ((pid, _), out) in chunk.iter().zip(outs) {
                 st.transitions += out.transitions;
-                for (l, ok) in out.labels {
+                for (l, a, b) in out.labels {
                     let e = st.labels.entry(l).or_insert((0, 0));
-                    if ok {
-                        e.0 += 1
-                    } else {
-                        e.1 += 1
-                    }
+                    e.0 += a;
+                    e.1 += b;
                 }
                 for (aidx, v) in out.viols {
                     record(model, &mut st, known, &parents, *pid, aidx, v, &mut unknown_clauses, &mut stop);
@@ -237,6 +257,11 @@ pub fn bfs<M: Model>(model: &M, bounds: &Bounds, known: &dyn KnownMatcher, seed:
             }
             if seen.len() >= bounds.max_states {
                 st.cap_hit = Some(format!("state cap {}", bounds.max_states));
+                capped = true;
+                break;
+            }
+            if rss_gb() > max_rss_gb() {
+                st.cap_hit = Some(format!("memory cap {} GB resident", max_rss_gb()));
                 capped = true;
                 break;
             }
